@@ -26,6 +26,9 @@ then the second parse sees the same words, operators and fd numbers.
 * `export_text_importable_by_bash`, `export_wrap_tokens` — the `BASH_FUNC_…%%` text always starts with
   `() {`; a body that is not a brace group is exported as a brace group holding it (repair of
   `export_body_not_brace_group`).
+* `declare_f_context_independent`, `declare_f_after_unset` — what `declare -f name` prints is a function of
+  the last definition of `name` only: not of the table before, of earlier definitions / `unset -f`, or of
+  any later step that does not define or unset `name` (the context sweep checks this on brush).
 * `heredoc_indented_cex` — still open: a here-document inside a brace group is printed with its end
   tag indented: no line of the printed text is the tag, the document never ends.
 -/
@@ -382,6 +385,75 @@ theorem export_wrap_tokens (c : Compound) (rs : Redirs) (h : isBrace c = false) 
 
 example : exportText (.sub (.cons (.mk 0 false (.simple .nil (some ['p']) .nil) .nil) .nil false .nil)) .nil =
     "() { \n( p )\n}".toList := by decide
+
+/-! ## what is printed does not depend on where the function was defined or where it is printed -/
+
+private theorem find_filter_other (m n : Str) (hm : (m == n) = false) : ∀ (t : FTab),
+    (t.filter (fun e => e.1 != m)).find? (fun e => e.1 == n) = t.find? (fun e => e.1 == n)
+  | [] => rfl
+  | e :: t => by
+    have ih := find_filter_other m n hm t
+    by_cases he : e.1 = n
+    · have hnm : ¬ n = m := by intro h; rw [h] at hm; simp at hm
+      simp [List.filter_cons, List.find?_cons, he, hnm]
+    · by_cases h2 : e.1 = m
+      · simp [List.filter_cons, h2, List.find?_cons, ih, hm]
+      · simp [List.filter_cons, h2, List.find?_cons, he, ih]
+
+private theorem get_step_other (t : FTab) (op : FOp) (n : Str) (h : op.touches n = false) :
+    (t.step op).get n = t.get n := by
+  cases op with
+  | other => rfl
+  | define m d =>
+    have hm : (m == n) = false := h
+    simp only [FTab.step, FTab.get, List.find?_cons, hm]
+    rw [find_filter_other m n hm]
+  | unset m =>
+    have hm : (m == n) = false := h
+    simp only [FTab.step, FTab.get]
+    rw [find_filter_other m n hm]
+
+private theorem get_run_other (ops : List FOp) : ∀ (t : FTab) (n : Str), (∀ op ∈ ops, op.touches n = false) →
+    (t.run ops).get n = t.get n := by
+  induction ops with
+  | nil => intro t n _; rfl
+  | cons op ops ih =>
+    intro t n h
+    simp only [FTab.run, List.foldl_cons]
+    have := ih (t.step op) n (fun o ho => h o (by simp [ho]))
+    simp only [FTab.run] at this
+    rw [this, get_step_other t op n (h op (by simp))]
+
+/-- **Context independence.** After `n` was defined as `d` — whatever the table held before, whatever
+happened earlier (other definitions of `n`, `unset -f n`), and whatever steps follow that neither
+define nor unset `n` (calls, groups, loops, `eval`, option changes, other functions being defined
+or removed, printing) — `declare -f n` prints exactly `printFn n d`: a function of the last
+definition only. -/
+theorem declare_f_context_independent (t : FTab) (pre post : List FOp) (n : Str) (d : Def)
+    (h : ∀ op ∈ post, op.touches n = false) :
+    declareF (((t.run pre).step (.define n d)).run post) n = some (printFn n d.c d.rs) := by
+  simp only [declareF]
+  rw [get_run_other post _ n h]
+  simp [FTab.step, FTab.get]
+
+/-- non-vacuity: redefinition after `unset -f`, with another function defined and removed afterwards -/
+example :
+    declareF (FTab.run (FTab.step (FTab.run ([] : FTab) [.define ['f'] ⟨.brace .nil, .nil⟩, .unset ['f']])
+        (.define ['f'] ⟨.sub .nil, .nil⟩))
+      [.other, .define ['g'] ⟨.brace .nil, .nil⟩, .unset ['g'], .other]) ['f'] =
+    some (printFn ['f'] (.sub .nil) .nil) :=
+  declare_f_context_independent [] [.define ['f'] ⟨.brace .nil, .nil⟩, .unset ['f']]
+    [.other, .define ['g'] ⟨.brace .nil, .nil⟩, .unset ['g'], .other] ['f'] ⟨.sub .nil, .nil⟩ (by decide)
+
+/-- and `unset -f` really removes it: nothing is printed afterwards -/
+theorem declare_f_after_unset (t : FTab) (n : Str) : declareF (t.step (.unset n)) n = none := by
+  simp only [declareF, FTab.get, FTab.step]
+  rw [List.find?_filter]
+  have : List.find? (fun e : Str × Def => (e.1 != n) && (e.1 == n)) t = none := by
+    apply List.find?_eq_none.mpr
+    intro e _
+    by_cases he : e.1 = n <;> simp [he]
+  simp [this]
 
 /-! ## the here-document defect (still open), on the model -/
 
